@@ -15,6 +15,7 @@ import random
 from harness import core, lex
 
 PROP = "C10"
+TRACE_MODULES = ["Trace_C10"]
 MAX = 2 ** 32 - 1
 
 
